@@ -213,6 +213,24 @@ def check_nadrop(case, acc):
         same = all((a.shape == b.shape and np.allclose(a.astype(float), b.astype(float), rtol=1e-13, atol=0, equal_nan=True)) if isinstance(a, np.ndarray) else a == b for a, b in zip(got, want))
         if not same:
             problems.append(f"{f!r}: with rows 1 and 4 dropped for a missing predictor, the response is not the response of the design on the retained rows")
+    # a missing count: pandas stores the column as float64; the retained whole numbers are still counts
+    dfc = frame(case["n"]).copy()
+    dfc["s"] = dfc["s"].astype(float)
+    dfc["n"] = dfc["n"].astype(float)
+    dfc.loc[2, "s"] = np.nan
+    dfc.loc[5, "n"] = np.nan
+    for text in ("prop(s, n)", "p(s, n)", "proportion(s, 9)", "prop(s, n + 1)"):
+        f = f"{text} ~ x"
+        keptc = frame(case["n"]).drop(index=[2, 5] if "n" in text.split("(", 1)[1] else [2]).reset_index(drop=True)  # integer columns, rows with a used count
+        acc.calls += 2
+        try:
+            want = resp_view(build(f, keptc))
+            got = resp_view(build(f, dfc))
+        except Exception as e:
+            problems.append(f"{f!r} with float-stored whole counts (a count missing elsewhere in the column) raised {type(e).__name__}: {e}")
+            continue
+        if got[0].shape != want[0].shape or not np.array_equal(got[0].astype(float), want[0].astype(float)) or got[1:] != want[1:]:
+            problems.append(f"{f!r}: with a count missing in two rows the response is not [successes, trials] of the retained rows")
     acc.subcases(case, len(texts) - 1, True, "response-forms")
     if problems:
         acc.case(case, "MISMATCH")
